@@ -310,6 +310,8 @@ class inlining:
 NAME_NORM = {
     "core::cmp::max": "core::cmp::Ord::max", "core::cmp::min": "core::cmp::Ord::min",
     "<usize as core::cmp::Ord>::max": "core::cmp::Ord::max", "<usize as core::cmp::Ord>::min": "core::cmp::Ord::min",
+    # for Copy items (u8 / u16 / char are the only element types here) cloned() is copied()
+    "core::iter::traits::iterator::Iterator::cloned": "core::iter::traits::iterator::Iterator::copied",
 }
 
 
@@ -489,6 +491,18 @@ def describe(body, e, depth=0, subst=None):
         if "from_residual" in nm and args:
             a = D(args[0])
             return a if a.startswith("err(") else "err(%s)" % a
+        # Layout::new::<T>().size() / .align() on a compile-time Layout: the number
+        if nm in ("core::alloc::layout::Layout::size", "core::alloc::layout::Layout::align") and len(args) == 1:
+            c0 = strip_refs(args[0])
+            if c0[0] == "const" and len(c0) > 4 and c0[1] == "core::alloc::layout::Layout":
+                W_ = body.facts.ptr_bytes
+                raw = bytes.fromhex(c0[4])
+                offs = c0[5] if len(c0) > 5 else ()
+                if len(raw) == 2 * W_ and len(offs) == 2:
+                    # Layout { size: usize, align: Alignment } - declared order, at the offsets the compiler chose
+                    en = body.facts.endian if body.facts.endian in ("little", "big") else "little"
+                    word = lambda o_: int.from_bytes(raw[o_:o_ + W_], en)
+                    return "const:%d" % (word(offs[0]) if nm.endswith("::size") else word(offs[1]))
         # a typed view of the handle's storage (as_heap_buffer(&self) -> &HeapBuffer ...) is the handle
         if nm in STORAGE_VIEW_FNS and len(args) == 1:
             return D(args[0])
@@ -526,6 +540,14 @@ def describe(body, e, depth=0, subst=None):
             args = [_iter_source(body, args[0])] + args[1:]
         if nm in ("core::mem::size_of", "core::mem::align_of"):
             nm += "::<%s>" % ", ".join(t.get("generic_args", []))
+        if nm == "core::iter::traits::iterator::Iterator::map" and len(args) == 2:
+            # `.map(|&x| x)` / `.map(|x| *x)` is `.copied()`
+            cd = D(args[1])
+            if isinstance(cd, Clo) and cd.path in body.facts.bodies and not cd.caps:
+                cb_ = body.facts.bodies[cd.path]
+                rd = [describe(cb_, ("call", bb_) if si_ == "term" else cb_.origin_rvalue(x_), depth + 2, {2: "ARG"}) for (bb_, si_, x_) in cb_.defs.get(0, [])]
+                if rd == ["ARG"]:
+                    return "core::iter::traits::iterator::Iterator::copied(%s)" % D(args[0])
         return "%s(%s)" % (nm, ", ".join(D(a) for a in args))
     if k == "field" and e[1][0] == "downcast":
         return _payload(body, e[1][1], e[1][2], depth, subst)
@@ -716,6 +738,24 @@ class Site:
         return self.t.get("line", 0)
 
 
+class FnItemSite(Site):
+    """the call a std combinator makes to a local function item it was handed"""
+
+    def __init__(self, root, chain, t, subst, fname, descs):
+        Site.__init__(self, root, chain, t, subst)
+        self._name, self._descs = fname, descs
+
+    @property
+    def name(self):
+        return self._name
+
+    def desc(self, i):
+        return self._descs[i] if i < len(self._descs) else "?"
+
+    def label(self):
+        return "%s#via-%s" % (self._name, callee_name(self.t).rsplit("::", 1)[-1])
+
+
 def inlined_sites(root, want, depth=3):
     """all call sites reachable from `root` through non-anchor helpers and local closures whose callee
     name satisfies want(name)"""
@@ -734,8 +774,27 @@ def inlined_sites(root, want, depth=3):
             if k and k in F.bodies and k not in anchors(F) and F.bodies[k].j["kind"] != "closure":
                 targets.append((k, True))
             for c in t.get("cb_closures", []):
+                if c in F.bodies and F.bodies[c].j["kind"] != "closure":
+                    # a function item, not a closure (`.and_then(HeapBuffer::allocate_ptr)`): called with
+                    # the element the combinator passes on
+                    if want(c):
+                        ads = [describe(body, body.origin_operand(a), 0, subs[-1]) for a in t["args"]]
+                        item = combinator_item(n, ads[0]) if ads else None
+                        if item:
+                            out.append(FnItemSite(root, here, t, subs, c, [item[1]]))
+                    if c in anchors(F):
+                        continue
                 if c in F.bodies:
                     targets.append((c, False))
+            for ci in t.get("cb_impls", []):
+                # `Capacity::new(n).and_then(HeapBuffer::allocate_ptr)`: a function item handed to a std
+                # combinator is called with the element the combinator passes on
+                fk = ci.get("local_key")
+                if fk and want(ci.get("inst_def") or fk):
+                    ads = [describe(body, body.origin_operand(a), 0, subs[-1]) for a in t["args"]]
+                    item = combinator_item(n, ads[0]) if ads else None
+                    if item:
+                        out.append(FnItemSite(root, here, t, subs, ci.get("inst_def") or fk, [item[1]]))
             cs = closure_call_subst(body, t, 0, subs[-1])
             if cs is not None and d > 0 and cs[0].path not in seen:
                 # `f(x)` where f is a closure the root (or a helper on the way) built: its body runs
